@@ -197,6 +197,11 @@ package htlcswitch
 //@   requires cm != nil
 //@   loop * havoc
 //@   loop 0 step !has(cm.opened, ks.OutKey) && has(cm.pending, ks.InKey) && len(openedCircuits) == prev(len(openedCircuits)) + 1
+//@   // a circuit is opened under ONE outgoing key: a keystone is accepted only for a circuit that has none yet (or already this one),
+//@   // and only if no earlier keystone of the same batch used its outgoing key (finding F24)
+//@   loop 0 step circuit.Outgoing == nil || circuit.Outgoing.HtlcID == ks.OutKey.HtlcID && circuit.Outgoing.ChanID.BlockHeight == ks.OutKey.ChanID.BlockHeight &&
+//@        circuit.Outgoing.ChanID.TxIndex == ks.OutKey.ChanID.TxIndex && circuit.Outgoing.ChanID.TxPosition == ks.OutKey.ChanID.TxPosition
+//@   loop 0 step !prevheap(has(batchOutKeys, ks.OutKey)) && has(batchOutKeys, ks.OutKey)
 //@   loop 1 step has(cm.opened, ks.OutKey) && cm.opened[ks.OutKey] == circuit
 //@   site store PaymentCircuit.Outgoing: assert ret(Update) == nil
 //@   ensures result == nil && len(keystones) > 0 ==> ret(Update) == nil
